@@ -175,6 +175,8 @@ def canon(top):
     kinds.append((repr(o), k))
   d["named_objects"] = sorted(kinds)
   d["nets"] = sorted((w, sorted(m)) for w, m in E.canon_nets(top))
+  d["method_nets"] = sorted((repr(w) if w is not None else None, sorted(repr(x) for x in m))
+                            for w, m in top.get_all_method_nets())
   adj = set()
   for a, bs in top._dsl.all_adjacency.items():
     for b in bs:
@@ -497,6 +499,28 @@ class ClB_{uid}(Component):
   def enq(s, v):
     s.buf.append(v)
 
+class Store_{uid}(Component):
+  def construct(s):
+    s.items = []
+  @non_blocking(lambda s: len(s.items) < 4)
+  def put(s, v):
+    s.items.append(v)
+
+class ClC_{uid}(Component):
+  # a method net entirely inside the component: its own caller interface feeds a private store
+  def construct(s):
+    s.store = Store_{uid}()
+    s.out = CallerIfcCL()
+    s.out //= s.store.put
+    s.buf = []
+    @update_once
+    def up_c():
+      if s.buf and s.out.rdy():
+        s.out(s.buf.pop(0))
+  @non_blocking(lambda s: len(s.buf) < 2)
+  def enq(s, v):
+    s.buf.append(v)
+
 class ClTop_{uid}(Component):
   def construct(s, classes):
     s.st = [c() for c in classes]
@@ -512,7 +536,7 @@ class ClTop_{uid}(Component):
 
 def gen_template_case(R, c):
   kind = c.choice(["ifc", "cl"])
-  names = ["IfcA", "IfcB", "IfcC"] if kind == "ifc" else ["ClA", "ClB"]
+  names = ["IfcA", "IfcB", "IfcC"] if kind == "ifc" else ["ClA", "ClB", "ClC"]
   n = c.randint(1, 3)
   start = [c.choice(names) for _ in range(n)]
   ops = []
